@@ -51,6 +51,7 @@ struct Config
   int preempt_bound     = 2;       // tape/DFS: non-forced switches (+ timer firings, spurious CAS)
   std::vector<int> tape;           // S_TAPE: choice indices; S_THREADS: thread ids to run, in order
   bool log_ops          = false;   // log every synchronisation operation (Level B)
+  int64_t yield_ns      = 20000;   // virtual time consumed by a this_thread::yield()
   int spin_limit        = 64;      // consecutive non-mutating points before a thread is descheduled
   std::function<void(int tid, Kind k, const void *obj)> on_point;  // called at every point (NoYield)
 };
